@@ -3,6 +3,7 @@ import math
 
 DAYS_PER_MONTH = [31, 28, 31, 30, 31, 30, 31, 31, 30, 31, 30, 31]
 DAYS_EPOCH = 25569
+DAYS_1900 = 2
 
 
 def is_leap_year(year):
@@ -34,8 +35,8 @@ def to_oa_date(date):
 
 
 def to_date(oadate):
-    value = oadate - DAYS_EPOCH
-    year = 1970
+    value = oadate - DAYS_1900
+    year = 1900
     while value >= year_days(year):
         value -= year_days(year)
         year += 1
